@@ -106,8 +106,8 @@ def c04() -> List[V]:
           rule="EVAL-STATE-RESET"),
         V("forall-keeps-solutions", S, "ForAll._evaluate__", "        # Always reset per evaluation\n        self.solution_set = []\n", "",
           rule="EVAL-STATE-RESET"),
-        V("domain-sorted-in-place", S, "Variable._update_domain_", "        if domain:\n            new_domain = None",
-          "        if domain:\n            domain.sort()\n            new_domain = None", rule="NO-DOMAIN-MUTATION"),
+        V("domain-sorted-in-place", S, "Variable._update_domain_", "        if domain is not None:\n            new_domain = None",
+          "        if domain is not None:\n            domain.sort()\n            new_domain = None", rule="NO-DOMAIN-MUTATION"),
         V("new-seen-field-never-reset", S, "AND._evaluate__", "                left_value.update(sources)\n",
           "                left_value.update(sources)\n                if self.seen_left_values.check(left_value):\n                    continue\n                self.seen_left_values.add(left_value)\n",
           rule="EVAL-STATE-RESET"),
@@ -155,7 +155,7 @@ def c08() -> List[V]:
         V("getitem-unguarded", S, "CanBehaveLikeAVariable.__getitem__", "        self._if_not_in_symbolic_mode_raise_error_('__getitem__')\n", "",
           rule="OP-GUARD"),
         V("eq-unguarded", S, "CanBehaveLikeAVariable.__eq__", "        self._if_not_in_symbolic_mode_raise_error_('__eq__')\n", "", rule="OP-GUARD"),
-        V("guard-helper-toothless", S, "CanBehaveLikeAVariable._if_not_in_symbolic_mode_raise_error_", "            raise AttributeError(",
+        V("guard-helper-toothless", S, "SymbolicExpression._if_not_in_symbolic_mode_raise_error_", "            raise AttributeError(",
           "            logger.warning(", rule="OP-GUARD"),
         V("enter-pushes-conditionally", S, "SymbolicExpression.__enter__", "        SymbolicExpression._symbolic_expression_stack_.append(node)",
           "        if node is not self:\n            SymbolicExpression._symbolic_expression_stack_.append(node)", rule="STACK-PAIRING"),
@@ -203,7 +203,7 @@ def c12() -> List[V]:
         V("alternative-not-reattached", "rule", "alternative_or_next", "    new_conditions_root._parent_ = prev_parent\n", "",
           rule="TREE-SURGERY"),
         V("alternative-left-of-exceptif-not-retargeted", "rule", "alternative_or_next",
-          "    elif isinstance(current_node._parent_, ExceptIf) and current_node is current_node._parent_.left:\n        current_node = current_node._parent_\n",
+          "        elif isinstance(current_node._parent_, ExceptIf) and current_node is current_node._parent_.left:\n            current_node = current_node._parent_\n",
           "", rule="TREE-SURGERY"),
         V("twin-refinement-explicit-else", "rule", "refinement",
           "        else:\n            prev_parent.right = new_conditions_root\n",
@@ -220,7 +220,7 @@ def c13() -> List[V]:
         V("filter-by-closure-class", "predicate", "extract_selected_variable_and_expression", "isinstance(v, symbolic_cls)",
           "isinstance(v, Predicate)", rule="DECL-FILTER"),
         V("no-type-filter", "predicate", "extract_selected_variable_and_expression",
-          "            domain.domain = filter(lambda v: isinstance(v, symbolic_cls), domain.domain)", "            pass", rule="DECL-FILTER"),
+          "        domain = From(filter(lambda v: isinstance(v, symbolic_cls), domain.domain))", "        pass", rule="DECL-FILTER"),
         V("closure-class-threaded", "predicate", "symbol.hybrid_new", "return symbolic_new(symbolic_cls, *args, **kwargs)",
           "return symbolic_new(cls, *args, **kwargs)", rule="DECL-FILTER"),
         V("fields-compared-with-ne", S, "properties_to_expression_tree", "getattr(var, k) == v", "getattr(var, k) != v", rule="FIELD-EQ"),
@@ -230,8 +230,8 @@ def c13() -> List[V]:
           "    for i, arg in enumerate(args):\n        if isinstance(arg, From):\n            domain = arg\n            if i > 0:",
           "    for i, arg in enumerate(args):\n        if isinstance(arg, From):\n            domain = arg\n            if i != 0:", kind="twin"),
         V("twin-filter-genexp", "predicate", "extract_selected_variable_and_expression",
-          "domain.domain = filter(lambda v: isinstance(v, symbolic_cls), domain.domain)",
-          "domain.domain = (v for v in domain.domain if isinstance(v, symbolic_cls))", kind="twin"),
+          "domain = From(filter(lambda v: isinstance(v, symbolic_cls), domain.domain))",
+          "domain = From((v for v in domain.domain if isinstance(v, symbolic_cls)))", kind="twin"),
     ]
 
 
@@ -290,18 +290,18 @@ def c20() -> List[V]:
 
 def c05() -> List[V]:
     return [
-        V("comparator-reads-regardless", S, "Comparator._evaluate__", "        if is_caching_enabled():\n            if self._cache_.check(sources):",
+        V("comparator-reads-regardless", S, "Comparator._evaluate__", "        if self._caching_enabled_():\n            if self._cache_.check(sources):",
           "        if True:\n            if self._cache_.check(sources):", rule="CACHE-SWITCH"),
-        V("and-reads-regardless", S, "AND._evaluate__", "if is_caching_enabled() and self.right_cache.check(left_value):",
+        V("and-reads-regardless", S, "AND._evaluate__", "if self._caching_enabled_() and self.right_cache.check(left_value):",
           "if self.right_cache.check(left_value):", rule="CACHE-SWITCH"),
-        V("union-reads-when-disabled", S, "Union._evaluate__", "if is_caching_enabled() and self._cache_.check(sources):",
-          "if not is_caching_enabled() and self._cache_.check(sources):", rule="CACHE-SWITCH"),
-        V("exceptif-or-instead-of-and", "conclusion_selector", "ExceptIf._evaluate__", "if is_caching_enabled() and self.right_cache.check(left_value):",
-          "if is_caching_enabled() or self.right_cache.check(left_value):", rule="CACHE-SWITCH"),
-        V("twin-switch-noop-both-sides", S, "BinaryOperator.update_cache", "        if not is_caching_enabled():\n            return\n", "",
+        V("union-reads-when-disabled", S, "Union._evaluate__", "if self._caching_enabled_() and self._cache_.check(sources):",
+          "if not self._caching_enabled_() and self._cache_.check(sources):", rule="CACHE-SWITCH"),
+        V("exceptif-or-instead-of-and", "conclusion_selector", "ExceptIf._evaluate__", "if self._caching_enabled_() and self.right_cache.check(left_value):",
+          "if self._caching_enabled_() or self.right_cache.check(left_value):", rule="CACHE-SWITCH"),
+        V("twin-switch-noop-both-sides", S, "BinaryOperator.update_cache", "        if not self._caching_enabled_():\n            return\n", "",
           kind="twin", note="writes unguarded too: the switch becomes a no-op and the property holds trivially; reads stay guarded"),
-        V("twin-nested-if", S, "AND._evaluate__", "                if is_caching_enabled() and self.right_cache.check(left_value):\n                    yield from self.yield_final_output_from_cache(left_value, self.right_cache)\n                    continue",
-          "                if is_caching_enabled():\n                    if self.right_cache.check(left_value):\n                        yield from self.yield_final_output_from_cache(left_value, self.right_cache)\n                        continue",
+        V("twin-nested-if", S, "AND._evaluate__", "                if self._caching_enabled_() and self.right_cache.check(left_value):\n                    yield from self.yield_final_output_from_cache(left_value, self.right_cache)\n                    continue",
+          "                if self._caching_enabled_():\n                    if self.right_cache.check(left_value):\n                        yield from self.yield_final_output_from_cache(left_value, self.right_cache)\n                        continue",
           kind="twin"),
     ]
 
@@ -311,10 +311,10 @@ def c10() -> List[V]:
         V("union-instead-of-intersection", S, "ForAll._evaluate__",
           "self.solution_set = [d for d in self.solution_set if tuple(sorted(d.items())) in current_set]",
           "self.solution_set = self.solution_set + [d for d in current if d not in self.solution_set]", rule="FORALL-MONOTONE"),
-        V("empty-value-skipped", S, "ForAll._evaluate__", "            if not current:\n                self.solution_set = []\n                break",
-          "            if not current:\n                continue", rule="FORALL-MONOTONE"),
-        V("empty-value-stops-without-emptying", S, "ForAll._evaluate__", "            if not current:\n                self.solution_set = []\n                break",
-          "            if not current:\n                break", rule="FORALL-MONOTONE"),
+        V("empty-value-skipped", S, "ForAll._evaluate__", "            if not current:\n                self.solution_set = []\n",
+          "            if not current:\n                continue\n            if False:\n", rule="FORALL-MONOTONE"),
+        V("empty-value-stops-without-emptying", S, "ForAll._evaluate__", "            if not current:\n                self.solution_set = []\n",
+          "            if not current:\n", rule="FORALL-MONOTONE"),
         V("every-value-reseeds", S, "ForAll._evaluate__", "            if var_val_index == 0:", "            if True:", rule="FORALL-MONOTONE"),
         V("first-value-filters-empty", S, "ForAll._evaluate__", "            if var_val_index == 0:", "            if var_val_index == 1:", rule="FORALL-MONOTONE"),
         V("not-reset", S, "ForAll._evaluate__", "        # Always reset per evaluation\n        self.solution_set = []\n", "", rule="FORALL-MONOTONE"),
@@ -326,8 +326,8 @@ def c10() -> List[V]:
           rule="FORALL-PER-VALUE"),
         V("stops-after-first-value", S, "ForAll._evaluate__", "            var_val_index += 1\n", "            var_val_index += 1\n            break\n",
           rule="FORALL-MONOTONE"),
-        V("twin-counter-as-flag", S, "ForAll._evaluate__", "            if not self.solution_set:\n                break\n\n        # Yield",
-          "            if len(self.solution_set) == 0:\n                break\n\n        # Yield", kind="twin"),
+        V("twin-counter-as-flag", S, "ForAll._evaluate__", "            # Early exit if the intersection is empty\n            if not self.solution_set:\n",
+          "            # Early exit if the intersection is empty\n            if len(self.solution_set) == 0:\n", kind="twin"),
     ]
 
 
@@ -389,8 +389,8 @@ def c07() -> List[V]:
         V("entry-materialises", S, "An.evaluate", "        results = self._evaluate__()\n        try:", "        results = iter(list(self._evaluate__()))\n        try:",
           rule="LAZY-TAINT"),
         V("type-filter-materialises", "predicate", "extract_selected_variable_and_expression",
-          "domain.domain = filter(lambda v: isinstance(v, symbolic_cls), domain.domain)",
-          "domain.domain = list(filter(lambda v: isinstance(v, symbolic_cls), domain.domain))", rule="LAZY-TAINT"),
+          "domain = From(filter(lambda v: isinstance(v, symbolic_cls), domain.domain))",
+          "domain = From(list(filter(lambda v: isinstance(v, symbolic_cls), domain.domain)))", rule="LAZY-TAINT"),
         V("and-sorts-left", S, "AND._evaluate__", "            left_values = self.left._evaluate__(sources, yield_when_false=self._yield_when_false_)",
           "            left_values = sorted(self.left._evaluate__(sources, yield_when_false=self._yield_when_false_), key=len)", rule="LAZY-TAINT"),
         V("domain-wrapped-eagerly", "hashed_data", "HashedIterable.set_iterable",
@@ -402,11 +402,11 @@ def c07() -> List[V]:
         V("let-peeks-domain", "entity", "let", "        if domain is None:\n            var = type_()", "        if domain is None or not list(domain):\n            var = type_()",
           rule="GEN-ENTRY"),
         V("evaluate-not-lazy", S, "An.evaluate", "                yield result\n", "                collected.append(result)\n", rule="GEN-ENTRY"),
-        V("variable-len-domain", S, "Variable._update_domain_", "        if domain:\n            new_domain = None", "        if domain and len(list(domain)) >= 0:\n            new_domain = None",
+        V("variable-len-domain", S, "Variable._update_domain_", "        if domain is not None:\n            new_domain = None", "        if domain is not None and len(list(domain)) >= 0:\n            new_domain = None",
           rule="GEN-ENTRY"),
         V("twin-filter-genexp", "predicate", "extract_selected_variable_and_expression",
-          "domain.domain = filter(lambda v: isinstance(v, symbolic_cls), domain.domain)",
-          "domain.domain = (v for v in domain.domain if isinstance(v, symbolic_cls))", kind="twin"),
+          "domain = From(filter(lambda v: isinstance(v, symbolic_cls), domain.domain))",
+          "domain = From((v for v in domain.domain if isinstance(v, symbolic_cls)))", kind="twin"),
         V("twin-yield-from-loop", S, "Variable.__iter__", "        for v in self._domain_:\n            yield {self._id_: HashedValue(v)}",
           "        yield from ({self._id_: HashedValue(v)} for v in self._domain_)", kind="twin"),
     ]
@@ -414,7 +414,7 @@ def c07() -> List[V]:
 
 def c11() -> List[V]:
     return [
-        V("args-ignore-binding", S, "Variable._generate_combinations_for_child_vars_values_", "v._evaluate_as_value_(sources)", "v._evaluate_as_value_()",
+        V("args-ignore-binding", S, "Variable._bind_child_vars_", "var._evaluate_as_value_(copy(binding))", "var._evaluate_as_value_()",
           rule="INFER-THREAD"),
         V("construct-once-outside-loop", S, "Variable._bind_unbound_kwargs_and_yield_results_",
           "            instance = self._type_(**{k: hv.value for k, hv in bound_kwargs.items()})\n            yield from",
@@ -442,7 +442,7 @@ def c19() -> List[V]:
           "first_values = first_operand._evaluate__(sources)", rule="VALUE-TRUTH"),
         V("selected-as-condition", S, "Entity._evaluate__", "self.selected_variable._evaluate_as_value_(sol)", "self.selected_variable._evaluate__(sol)",
           rule="VALUE-TRUTH"),
-        V("constructor-arg-as-condition", S, "Variable._generate_combinations_for_child_vars_values_", "v._evaluate_as_value_(sources)", "v._evaluate__(sources)",
+        V("constructor-arg-as-condition", S, "Variable._bind_child_vars_", "var._evaluate_as_value_(copy(binding))", "var._evaluate__(copy(binding))",
           rule="VALUE-TRUTH"),
         V("mapping-chain-as-condition", S, "DomainMapping._evaluate__", "child_val = self._child_._evaluate_as_value_(sources)",
           "child_val = self._child_._evaluate__(sources, yield_when_false=self._yield_when_false_)", rule="VALUE-TRUTH"),
@@ -658,12 +658,12 @@ def more_c10():
     return _abandon() + [
         V("universal-variable-not-in-key", S, "ForAll._required_variables_from_child_", "            required_vars.update(self.left._unique_variables_)\n", "            pass\n", rule="FORALL-KEY"),
         V("universal-key-on-wrong-child", S, "ForAll._required_variables_from_child_", "        if child is self.right:\n", "        if child is self.left:\n", rule="FORALL-KEY"),
-        V("literals-in-intersection-key", S, "ForAll.condition_unique_variable_ids", "\n                if not isinstance(v.value, Literal)]", "]", rule="FORALL-NONLITERAL"),
+        V("literals-in-intersection-key", S, "ForAll.condition_unique_variable_ids", "\n                if not isinstance(v.value, Literal) and not getattr(v.value, '_predicate_type_', None)]", "\n                if not getattr(v.value, '_predicate_type_', None)]", rule="FORALL-NONLITERAL"),
         V("partial-rows-intersected", S, "ForAll._evaluate__", "for complete_val in self._bind_unbound_condition_variables_(condition_val):", "for complete_val in [condition_val]:",
           rule="FORALL-TOTAL-ROWS"),
         V("twin-forall-key-as-loop", S, "ForAll.condition_unique_variable_ids",
-          "        return [v.id_ for v in self.condition._unique_variables_.difference(self.left._unique_variables_)\n                if not isinstance(v.value, Literal)]",
-          "        ids = []\n        for v in self.condition._unique_variables_.difference(self.left._unique_variables_):\n            if isinstance(v.value, Literal):\n                continue\n"
+          "        return [v.id_ for v in self.condition._unique_variables_.difference(self.left._unique_variables_)\n                if not isinstance(v.value, Literal) and not getattr(v.value, '_predicate_type_', None)]",
+          "        ids = []\n        for v in self.condition._unique_variables_.difference(self.left._unique_variables_):\n            if isinstance(v.value, Literal) or getattr(v.value, '_predicate_type_', None):\n                continue\n"
           "            ids.append(v.id_)\n        return ids", kind="twin"),
     ]
 
@@ -699,7 +699,7 @@ def more_c13():
 
 def more_c14():
     return [
-        V("reader-mode-defaulted", "predicate", "symbol.<locals>.symbolic_new", "_predicate_type_=predicate_type,\n                            _is_indexed_=index_class_cache(symbolic_cls))",
+        V("reader-mode-defaulted", "predicate", "symbol.symbolic_new", "_predicate_type_=predicate_type,\n                            _is_indexed_=index_class_cache(symbolic_cls))",
           "_predicate_type_=predicate_type)", rule="REG-READ-MODE"),
         V("store-replayed-live", "hashed_data", "HashedIterable.__iter__", "        yield from list(self.values.values())", "        yield from self.values.values()", rule="ITER-SNAPSHOT"),
         V("inference-allocates-without-registering", S, "Variable._instantiate_new_values_and_yield_results_",
@@ -758,3 +758,172 @@ def _merged(first, more):
 
 for _pid, _more in _MORE.items():
     REGISTRY[_pid] = _merged(REGISTRY[_pid], _more) if _pid in REGISTRY else _more
+
+
+# ---------------------------------------------------------------------------------------------------------------------
+# third batch: the rules added after the second round of seeded changes
+_REPLAY_OLD = ("                        yield from self.yield_final_output_from_cache(left_value, self.right_cache,\n"
+               "                                                                      suppress_true_duplicates=True)")
+_ELSEIF_READ_OLD = ("                if self.left._is_false_:\n"
+                    "                    if self._caching_enabled_() and self.right_cache.check(left_value):\n" + _REPLAY_OLD + "\n"
+                    "                        continue\n")
+_ELSEIF_READ_HOISTED = ("                if self._caching_enabled_() and self.right_cache.check(left_value):\n"
+                        "                    yield from self.yield_final_output_from_cache(left_value, self.right_cache, suppress_true_duplicates=True)\n"
+                        "                    continue\n"
+                        "                if self.left._is_false_:\n")
+
+
+def _replay():
+    return [
+        V("replay-does-not-suppress-true-duplicates", S, "ElseIf._evaluate__", _REPLAY_OLD,
+          "                        yield from self.yield_final_output_from_cache(left_value, self.right_cache)", rule="REPLAY-DEDUP"),
+        V("replay-helper-ignores-request", S, "BinaryOperator.yield_final_output_from_cache",
+          "if (is_false or suppress_true_duplicates) and self._is_duplicate_output_(output):", "if is_false and self._is_duplicate_output_(output):",
+          rule="REPLAY-DEDUP"),
+        V("twin-replay-request-positional", S, "ElseIf._evaluate__", _REPLAY_OLD,
+          "                        yield from self.yield_final_output_from_cache(left_value, self.right_cache, True)", kind="twin"),
+        V("right-cache-consulted-before-left-truth", S, "ElseIf._evaluate__", _ELSEIF_READ_OLD, _ELSEIF_READ_HOISTED, rule="REPLAY-CONTEXT"),
+    ]
+
+
+def _traversal():
+    return [
+        V("invalidation-skips-leaves", S, "SymbolicExpression._clear_result_caches_", "        for child in self._children_:\n            child._clear_result_caches_()",
+          "        for child in self._children_:\n            if not child._children_:\n                continue\n            child._clear_result_caches_()", rule="TRAVERSAL-TOTAL"),
+        V("reset-skips-nested-queries", S, "SymbolicExpression._reset_cache_", "        for child in self._children_:\n            child._reset_cache_()",
+          "        for child in self._children_:\n            if isinstance(child, ResultQuantifier):\n                continue\n            child._reset_cache_()", rule="TRAVERSAL-TOTAL"),
+        V("twin-reset-over-a-copy", S, "SymbolicExpression._reset_cache_", "        for child in self._children_:\n            child._reset_cache_()",
+          "        for child in list(self._children_):\n            child._reset_cache_()", kind="twin"),
+    ]
+
+
+def third_c01():
+    return _traversal()[1:]
+
+
+def third_c02():
+    return _traversal()[1:] + [
+        V("recursion-not-handed-the-row", S, "QueryObjectDescriptor._bind_selected_variables_", "yield from self._bind_selected_variables_(selected_vars[1:], extended_binding)",
+          "yield from self._bind_selected_variables_(selected_vars[1:], binding)", rule="BIND-THREAD"),
+        V("binding-extended-in-place", S, "QueryObjectDescriptor._bind_selected_variables_",
+          "            extended_binding = copy(binding)\n            extended_binding.update(value)\n            yield from self._bind_selected_variables_(selected_vars[1:], extended_binding)",
+          "            binding.update(value)\n            yield from self._bind_selected_variables_(selected_vars[1:], binding)", rule="ROW-FRESH"),
+        V("unknown-truth-key-narrowed", S, "OR._required_variables_from_child_", "            if when_false or (when_false is None):", "            if when_false:", rule="DEDUP-UNKNOWN"),
+        V("twin-unknown-truth-test-reordered", S, "OR._required_variables_from_child_", "            if when_false or (when_false is None):", "            if when_false is None or when_false:", kind="twin"),
+    ]
+
+
+def third_c04():
+    return _replay()[:3] + _traversal()
+
+
+def third_c05():
+    return _replay() + _traversal()[:1]
+
+
+def third_c06():
+    return _traversal()[1:]
+
+
+def third_c07():
+    return _traversal()[1:] + [
+        V("warning-sizes-the-domain-by-pulling", S, "QueryObjectDescriptor._warn_on_unbound_variables_", "len(var.value._domain_.values) > 20",
+          "len(list(itertools.islice(var.value._domain_, 21))) > 20", rule="LAZY-TAINT"),
+    ]
+
+
+def third_c08():
+    return [
+        V("conjunction-unguarded", S, "SymbolicExpression.__and__", "        self._if_not_in_symbolic_mode_raise_error_('__and__')\n", "", rule="OP-GUARD"),
+        V("inversion-unguarded", S, "SymbolicExpression.__invert__", "        self._if_not_in_symbolic_mode_raise_error_('__invert__')\n", "", rule="OP-GUARD"),
+    ]
+
+
+def third_c10():
+    return [
+        V("condition-variables-not-in-key", S, "ForAll._required_variables_from_child_", "            required_vars.update(self.right._unique_variables_)\n", "", rule="FORALL-KEY"),
+        V("predicate-results-in-intersection-key", S, "ForAll.condition_unique_variable_ids", " and not getattr(v.value, '_predicate_type_', None)]", "]",
+          rule="FORALL-NONLITERAL"),
+        V("completion-loses-earlier-variables", S, "ForAll._bind_unbound_condition_variables_",
+          "                    extended_binding = copy(binding)\n                    extended_binding.update(value)\n", "                    extended_binding = copy(value)\n",
+          rule="FORALL-TOTAL-ROWS"),
+    ]
+
+
+def third_c11():
+    return [
+        V("arguments-not-handed-the-row", S, "Variable._bind_child_vars_", "self._bind_child_vars_(remaining_child_vars, extended_binding)",
+          "self._bind_child_vars_(remaining_child_vars, binding)", rule="INFER-THREAD"),
+    ]
+
+
+def third_c12():
+    return [
+        V("unknown-truth-key-narrowed", S, "OR._required_variables_from_child_", "            if when_false or (when_false is None):", "            if when_false:", rule="DEDUP-UNKNOWN"),
+        V("alternative-conclusions-not-withdrawn", CS, "Alternative._evaluate__", "            yield output\n            self._conclusion_.clear()", "            yield output", rule="SELECT-PER-ROW"),
+        V("refinement-conclusions-selected-once", CS, "ExceptIf._evaluate__",
+          "                right_yielded = True\n                self._conclusion_.update(self.right._conclusion_)\n                output = left_value.copy()\n                output.update(right_value)\n                yield output\n                self._conclusion_.clear()\n",
+          "                if not right_yielded:\n                    self._conclusion_.update(self.right._conclusion_)\n                right_yielded = True\n                output = left_value.copy()\n                output.update(right_value)\n                yield output\n",
+          rule="SELECT-PER-ROW"),
+        V("twin-selection-then-flag", CS, "ExceptIf._evaluate__", "                right_yielded = True\n                self._conclusion_.update(self.right._conclusion_)\n",
+          "                self._conclusion_.update(self.right._conclusion_)\n                right_yielded = True\n", kind="twin"),
+    ]
+
+
+def third_c13():
+    return [
+        V("domain-presence-by-truth-in-let", "entity", "let", "        if domain is None:\n", "        if not domain:\n", rule="DOMAIN-PRESENCE"),
+        V("domain-presence-by-truth-in-variable", S, "Variable._update_domain_", "        if domain is not None:\n", "        if domain:\n", rule="DOMAIN-PRESENCE"),
+        V("twin-domain-presence-branches-swapped", "entity", "let", "        if domain is None:\n            var = type_()\n        else:\n            var = type_(From(domain))",
+          "        if domain is not None:\n            var = type_(From(domain))\n        else:\n            var = type_()", kind="twin"),
+        V("expression-domain-not-type-filtered", S, "Variable._update_domain_",
+          "                    new_domain = filter(lambda v: isinstance(v.value, self._type_), new_domain)\n", "                    pass\n", rule="DECL-FILTER"),
+        V("expression-domain-filtered-as-collection", "predicate", "extract_selected_variable_and_expression",
+          "    elif domain and isinstance(domain.domain, SymbolicExpression):\n", "    elif domain and isinstance(domain.domain, SymbolicExpression) and not is_iterable(domain.domain):\n", rule="DECL-FILTER"),
+        V("twin-expression-domain-filter-genexp", S, "Variable._update_domain_",
+          "                    new_domain = filter(lambda v: isinstance(v.value, self._type_), new_domain)\n",
+          "                    new_domain = (v for v in new_domain if isinstance(v.value, self._type_))\n", kind="twin"),
+    ]
+
+
+def third_c16():
+    return [
+        V("flatten-skips-falsy-values", S, "Flatten._apply_mapping_", "        inner = value.value\n", "        inner = value.value\n        if not inner:\n            return\n",
+          rule="VALUE-NOT-TESTED"),
+        V("strings-are-collections", "utils", "is_iterable", "(str, type, bytes, bytearray)", "(type, bytes, bytearray)", rule="SCALAR-CLASSIFIER"),
+        V("twin-classifier-reordered", "utils", "is_iterable", "(str, type, bytes, bytearray)", "(bytes, bytearray, str, type)", kind="twin"),
+        V("twin-payload-through-two-locals", S, "Flatten._apply_mapping_", "        inner = value.value\n", "        payload = value.value\n        inner = payload\n", kind="twin"),
+    ]
+
+
+def third_c17():
+    return [
+        V("concatenate-skips-falsy-scalars", S, "Concatenate._evaluate__", "                    if not is_iterable(child_v_unwrapped):\n",
+          "                    if not child_v_unwrapped:\n                        child_v_unwrapped = []\n                    elif not is_iterable(child_v_unwrapped):\n", rule="VALUE-NOT-TESTED"),
+        V("exact-type-classifier", "utils", "is_iterable", "not isinstance(obj, (str, type, bytes, bytearray))", "type(obj) not in (str, type, bytes, bytearray)",
+          rule="SCALAR-CLASSIFIER"),
+    ]
+
+
+def third_c18():
+    return [
+        V("binding-extended-in-place", S, "QueryObjectDescriptor._bind_selected_variables_",
+          "            extended_binding = copy(binding)\n            extended_binding.update(value)\n            yield from self._bind_selected_variables_(selected_vars[1:], extended_binding)",
+          "            binding.update(value)\n            yield from self._bind_selected_variables_(selected_vars[1:], binding)", rule="ROW-FRESH"),
+        V("empty-intersection-reseeds", S, "ForAll._evaluate__", "            if var_val_index == 0:", "            if not self.solution_set:", rule="FORALL-MONOTONE"),
+    ]
+
+
+def third_c19():
+    return [
+        V("index-skips-falsy-containers", S, "Index._apply_mapping_", "        yield HashedValue(id_=value.id_, value=value.value[self._key_])",
+          "        if not value.value:\n            return\n        yield HashedValue(id_=value.id_, value=value.value[self._key_])", rule="VALUE-NOT-TESTED"),
+        V("flatten-skips-falsy-values", S, "Flatten._apply_mapping_", "        inner = value.value\n", "        inner = value.value\n        if not inner:\n            return\n",
+          rule="VALUE-NOT-TESTED"),
+    ]
+
+
+_THIRD = {"C01": third_c01, "C02": third_c02, "C04": third_c04, "C05": third_c05, "C06": third_c06, "C07": third_c07, "C08": third_c08, "C10": third_c10,
+          "C11": third_c11, "C12": third_c12, "C13": third_c13, "C16": third_c16, "C17": third_c17, "C18": third_c18, "C19": third_c19}
+for _pid, _more in _THIRD.items():
+    REGISTRY[_pid] = _merged(REGISTRY[_pid], _more)
